@@ -19,6 +19,7 @@ type TypeOpts struct {
 	Omitzero  bool           // allow the omitzero tag option
 	NoIface   bool
 	NoPtrKeys bool // no pointer-typed map keys (encoding/json cannot decode them)
+	NoRaw     bool // no json.RawMessage (its bytes are only preserved up to insignificant white space)
 }
 
 var scalarTypes = []reflect.Type{
@@ -50,6 +51,9 @@ func (r *Rng) Type(o *TypeOpts, depth int) reflect.Type {
 	case k < 5:
 		return scalarTypes[r.Intn(len(scalarTypes))]
 	case k == 5:
+		if o.NoRaw {
+			return []reflect.Type{tNumber, tBytes, tString}[r.Intn(3)]
+		}
 		return []reflect.Type{tNumber, tRaw, tBytes, tString, tString}[r.Intn(5)]
 	case k == 6:
 		if o.NoIface {
@@ -144,7 +148,7 @@ func (r *Rng) StructType(o *TypeOpts, depth int) reflect.Type {
 			f.Name = "u" + name
 			f.PkgPath = "verifharness/gen"
 		case 1, 2: // embedded struct (value or pointer) without methods
-			et := r.StructType(&TypeOpts{MaxDepth: o.MaxDepth, NoMethods: true, NoIface: o.NoIface}, depth+1)
+			et := r.StructType(&TypeOpts{MaxDepth: o.MaxDepth, NoMethods: true, NoIface: o.NoIface, NoRaw: o.NoRaw, NoPtrKeys: o.NoPtrKeys, Omitzero: o.Omitzero}, depth+1)
 			if et.NumField() > 0 && et.NumMethod() == 0 {
 				f.Type = et
 				if r.Chance(1, 3) {
@@ -246,7 +250,12 @@ func (r *Rng) StringValue(o *ValOpts) string {
 		return strconv.Itoa(r.Intn(1000))
 	case 4:
 		n := r.SmallLen(o.MaxLen * 8)
-		return strings.Repeat(sampleStrings[1+r.Intn(len(sampleStrings)-1)], n/4+1)[:n/4]
+		// (cutting at a byte offset may split a multi-byte character: repair unless invalid UTF-8 is wanted)
+		s := strings.Repeat(sampleStrings[1+r.Intn(len(sampleStrings)-1)], n/4+1)[:n/4]
+		if !o.BadUTF8 {
+			s = strings.ToValidUTF8(s, "?")
+		}
+		return s
 	}
 	n := r.SmallLen(o.MaxLen)
 	b := make([]byte, n)
